@@ -876,3 +876,83 @@ package crypto
 //@ assigns nothing
 //@ ensures [never-undefined] result == VALID || result == INVALID
 //@ ensures [accepts-exactly] (result == VALID) == (g1canon(sig1) && inG1(g1pt(sig1)) && g1canon(sig2) && inG1(g1pt(sig2)) && pairOK2(g1pt(sig1), e2Neg(*pk2), g1pt(sig2), *pk1))
+
+// =============================================================================================
+// Go glue of the BLS signature scheme (C01, C16, C17, C19)
+
+//@ global errNilHasher != nil && errNotBLSKey != nil && errInvalidSignature != nil && errBLSAggregateEmptyList != nil
+//@ global popKMAC != nil && popKMAC.osize == 128 && popKMAC.cfg == kmacCfg(seqid("BLS_POP_BLS12381G1_XOF:KMAC128_SSWU_RO_POP_"), seqid("H2C"), 128)
+
+//@ pred hasherOK(k) = k != nil && k.osize == 128
+
+//@ func checkBLSHasher mode int props C01 C09
+//@ assigns nothing
+//@ ensures [nil-hasher] hasher == nil ==> result == errNilHasher && result != nil
+//@ ensures [hasher-size] hasher != nil && hasher.osize != 128 ==> iserr(result, *invalidHasherSizeError) && result != nil
+//@ ensures [ok] hasherOK(hasher) ==> result == nil
+
+//@ func internalExpandMsgXOFKMAC128 mode int props C16 C09
+//@ requires len(key) >= 16
+//@ assigns nothing
+//@ ensures result != nil && result.osize == 128 && result.cfg == kmacCfg(seqid(key), seqid("H2C"), 128)
+
+//@ func NewExpandMsgXOFKMAC128 mode int props C16 C01 C09
+//@ assigns nothing
+//@ ensures [signature-suite-key] result != nil && result.osize == 128 && result.cfg == kmacCfg(seqid(domainTag + "BLS_SIG_BLS12381G1_XOF:KMAC128_SSWU_RO_POP_"), seqid("H2C"), 128)
+
+//@ func (*prKeyBLSBLS12381).Sign mode int props C01 C09 C19
+//@ requires sk != nil
+//@ assigns ghost(kmac)
+//@ ensures [nil-hasher] kmac == nil ==> result1 == errNilHasher && len(result0) == 0
+//@ ensures [hasher-size] kmac != nil && kmac.osize != 128 ==> iserr(result1, *invalidHasherSizeError) && len(result0) == 0
+//@ ensures [signature-is-sk-times-hash-to-curve] hasherOK(kmac) ==> result1 == nil && len(result0) == 48 && fresh(result0) && g1encOf(result0, e1Mul(h2cd(hout(kmac.cfg, seqid(data))), sk.scalar))
+//@ ensures [key-untouched] unchanged(sk.scalar) && unchanged(sk.pk)
+
+//@ func (*pubKeyBLSBLS12381).Verify mode int props C01 C09 C19
+//@ dead-return 1   // bls_verify never returns a code other than VALID / INVALID
+//@ requires pk != nil
+//@ assigns ghost(kmac)
+//@ ensures [nil-hasher] kmac == nil ==> !result0 && result1 == errNilHasher
+//@ ensures [hasher-size] kmac != nil && kmac.osize != 128 ==> !result0 && iserr(result1, *invalidHasherSizeError)
+//@ ensures [wrong-length] hasherOK(kmac) && len(s) != 48 ==> !result0 && result1 == nil
+//@ ensures [identity-key] hasherOK(kmac) && len(s) == 48 && pk.isIdentity ==> !result0 && result1 == nil
+//@ ensures [accepts-exactly] hasherOK(kmac) && len(s) == 48 && !pk.isIdentity ==> result1 == nil && result0 == (g1canon(s) && inG1(g1pt(s)) && pairOK2(g1pt(s), negG2(), h2cd(hout(kmac.cfg, seqid(data))), pk.point))
+//@ ensures [key-untouched] unchanged(pk.point) && unchanged(pk.isIdentity)
+
+// ---- proofs of possession (C16) and SPoCK (C17)
+
+//@ func (PrivateKey).Sign
+//@ requires self != nil
+//@ assigns ghost(arg1)
+
+//@ func (PublicKey).Verify
+//@ requires self != nil
+//@ assigns ghost(arg2)
+
+//@ func (PrivateKey).Algorithm
+//@ requires self != nil
+//@ assigns nothing
+
+//@ func (PublicKey).Algorithm
+//@ requires self != nil
+//@ assigns nothing
+
+//@ func (PublicKey).Encode
+//@ requires self != nil
+//@ assigns nothing
+//@ ensures fresh(result)
+
+//@ func (PrivateKey).PublicKey
+//@ requires self != nil
+//@ assigns obj(self)
+//@ ensures result != nil
+
+//@ func SPOCKVerify mode int props C17 C09 C19
+//@ dead-return 2   // bls_spock_verify never returns a code other than VALID / INVALID
+//@ requires pk1 != nil && pk2 != nil
+//@ requires [no-typed-nil-keys] (typeis(pk1, *pubKeyBLSBLS12381) ==> unbox(pk1, *pubKeyBLSBLS12381) != nil) && (typeis(pk2, *pubKeyBLSBLS12381) ==> unbox(pk2, *pubKeyBLSBLS12381) != nil)
+//@ assigns nothing
+//@ ensures [not-bls-keys] !(typeis(pk1, *pubKeyBLSBLS12381) && typeis(pk2, *pubKeyBLSBLS12381)) ==> !result0 && result1 == errNotBLSKey
+//@ ensures [wrong-length] typeis(pk1, *pubKeyBLSBLS12381) && typeis(pk2, *pubKeyBLSBLS12381) && (len(proof1) != 48 || len(proof2) != 48) ==> !result0 && result1 == nil
+//@ ensures [identity-key] typeis(pk1, *pubKeyBLSBLS12381) && typeis(pk2, *pubKeyBLSBLS12381) && len(proof1) == 48 && len(proof2) == 48 && (unbox(pk1, *pubKeyBLSBLS12381).isIdentity || unbox(pk2, *pubKeyBLSBLS12381).isIdentity) ==> !result0 && result1 == nil
+//@ ensures [accepts-exactly] typeis(pk1, *pubKeyBLSBLS12381) && typeis(pk2, *pubKeyBLSBLS12381) && len(proof1) == 48 && len(proof2) == 48 && !unbox(pk1, *pubKeyBLSBLS12381).isIdentity && !unbox(pk2, *pubKeyBLSBLS12381).isIdentity ==> result1 == nil && result0 == (g1canon(proof1) && inG1(g1pt(proof1)) && g1canon(proof2) && inG1(g1pt(proof2)) && pairOK2(g1pt(proof1), e2Neg(unbox(pk2, *pubKeyBLSBLS12381).point), g1pt(proof2), unbox(pk1, *pubKeyBLSBLS12381).point))
